@@ -147,8 +147,13 @@ class Emitter:
             extra = ''
             if t[1][0] == 'double':
                 extra = '\n\t\tvrt.Assume(k == k) // NaN keys can not be looked up; outside the claim'
+            kk = t[1][0]
+            if kk in ('i8', 'i16', 'i32', 'i64', 'enum', 'i64n'):
+                extra += '\n\t\tif forceM >= 0 {\n\t\t\tk = %s(i) // large maps: distinct concrete keys, symbolic values\n\t\t}' % kt
+            elif kk == 'string':
+                extra += '\n\t\tif forceM >= 0 {\n\t\t\tk = idxKey(i)\n\t\t}'
             o.append('''func fill_%s(p *%s, name string, depth int) {
-	c := pick(name+"#", boundM+2)
+	c := mapLen(name)
 	if c == 0 {
 		*p = nil
 		return
